@@ -135,6 +135,34 @@ func c07Trees(quick bool, blk int64) []*treeSpec {
 		}
 		trees = append(trees, ml)
 	}
+	// many regular files of one to three full blocks: their inodes (with block lists of different lengths, 60-68 bytes)
+	// fill several inode-table metadata blocks, so that an inode straddles a metadata block boundary at many alignments
+	{
+		mf := &treeSpec{Dirs: []string{"blk"}, Files: map[string][]byte{}}
+		nf := 900
+		if b > 8192 {
+			nf = 0 // only with small blocks (the data would be hundreds of MiB)
+		}
+		for i := 0; i < nf; i++ {
+			k := 1 + (i*7+i/13)%3
+			body := bytes.Repeat([]byte(fmt.Sprintf("%04d-block-file|", i)), (k*b)/16+1)[:k*b]
+			mf.Files[fmt.Sprintf("blk/f%04d", i)] = body
+		}
+		if nf > 0 {
+			trees = append(trees, mf)
+		}
+	}
+	// the same question decided exhaustively for the first boundary: 150 one-block files behind a symbolic link whose
+	// target length shifts every later inode by one byte per tree (60 trees = every alignment of a 60-byte inode)
+	if b <= 8192 {
+		for p := 0; p < 60; p++ {
+			at := &treeSpec{Dirs: []string{"s"}, Files: map[string][]byte{}, Links: map[string]string{"s/aaa-pad": strings.Repeat("t", p+1)}}
+			for i := 0; i < 150; i++ {
+				at.Files[fmt.Sprintf("s/f%03d", i)] = bytes.Repeat([]byte(fmt.Sprintf("%03d-align-file-|", i)), b/16)
+			}
+			trees = append(trees, at)
+		}
+	}
 	// sparse file: a hole of several blocks between data
 	sp := make([]byte, 6*b+5)
 	copy(sp, "head")
@@ -393,7 +421,7 @@ func C07(r *ev.Run) {
 	r.Set("evaluations", int64(done))
 	r.Set("distinct_nontrivial", int64(ok.n()))
 	r.Set("distinct_outcomes", outcomes.snapshot())
-	r.Set("rule", "trees: every ordered forest with <= 4 nodes (quick: 3) and height <= 3 x name rotations x size rotations over {0,1,blk-1,blk,blk+1,2blk+17} with zero-run / compressible / incompressible contents chosen per path; plus symlink variants, a file mixing compressible and incompressible full blocks, 2000 entries in one directory, 530 files with fragment tails (> 512 fragment blocks), 48 directories x 14 long names with nested sub-directories (directory table of several metadata blocks), 720 symlinks with targets of every length 3..245 (targets straddling inode metadata blocks), a sparse file; x compressor {default, gzip level 9, xz, lz4, zstd} x fragments on/off x NoCompress{Inodes,Data,Fragments}/NoPad variants x block size {4 KiB, 128 KiB, 1 MiB} x read cache {default, 0, one block} x start {0, 1 MiB}; non-trivial = distinct (tree, options) pairs that Finalize accepted and that were read back and compared entry by entry, with the superblock checked against the device write log")
+	r.Set("rule", "trees: every ordered forest with <= 4 nodes (quick: 3) and height <= 3 x name rotations x size rotations over {0,1,blk-1,blk,blk+1,2blk+17} with zero-run / compressible / incompressible contents chosen per path; plus symlink variants, a file mixing compressible and incompressible full blocks, 2000 entries in one directory, 530 files with fragment tails (> 512 fragment blocks), 48 directories x 14 long names with nested sub-directories (directory table of several metadata blocks), 720 symlinks with targets of every length 3..245 (targets straddling inode metadata blocks), 900 files of one to three full blocks (inodes with block lists straddling inode metadata blocks at many alignments), a sparse file; x compressor {default, gzip level 9, xz, lz4, zstd} x fragments on/off x NoCompress{Inodes,Data,Fragments}/NoPad variants x block size {4 KiB, 128 KiB, 1 MiB} x read cache {default, 0, one block} x start {0, 1 MiB}; non-trivial = distinct (tree, options) pairs that Finalize accepted and that were read back and compared entry by entry, with the superblock checked against the device write log")
 	r.Set("exhaustive", done == len(cases))
 	r.Assume("the same tree compared against the source under every option set makes the views identical across option sets (differential oracle)")
 }
